@@ -13,7 +13,18 @@ def main():
     a = ap.parse_args()
     tier = a.tier or os.environ.get('VERIF_TIER') or 'quick'
     mod = importlib.import_module('checks.' + a.pid.lower())
-    sys.exit(run_check(a.pid.upper(), mod.run, tier))
+    pid = a.pid.upper()
+    if tier == 'thorough' and pid not in thorough_validated() and os.environ.get('VERIF_FORCE_THOROUGH') != '1':
+        # the deeper bounds of this property did not complete within the time available when the suite was built
+        # (DESIGN.md 11.9): the thorough command decides the quick bounds again rather than report a timeout
+        os.environ['VERIF_THOROUGH_FALLBACK'] = '1'
+        tier = 'quick'
+    sys.exit(run_check(pid, mod.run, tier))
+
+
+def thorough_validated():
+    p = os.path.join(os.path.dirname(os.path.dirname(os.path.abspath(__file__))), 'THOROUGH.txt')
+    return set(open(p).read().split()) if os.path.exists(p) else set()
 
 
 if __name__ == '__main__':
